@@ -191,8 +191,7 @@ def generate(seed, tier):
                 du = r.choice([c for c in DUMPERS + dsubs if c not in BASE_ONLY])
             tag = r.choice(['!y1', '!y2', None]) if base is not None else r.choice(['!y1', '!y2'])
             ops.append({'op': 'yobj', 'name': name, 'tag': tag, 'loaders': lo, 'dumper': du, 'base': base})
-            if tag is not None or True:
-                yobjs.append(name)
+            yobjs.append(name)
             continue
         kind = r.choice(kinds)
         module = r.random() < p_mod
@@ -984,12 +983,10 @@ def run_history(case):
         v = hostile_check(w, model, where)
         if v:
             out['violations'].append(v)
-    out['probes']['classes_in_lattice_max'] = 0
     out['maxima'] = {'classes_in_lattice': len(model.classes), 'steps': len(case['ops'])}
     out['extra']['table_comparisons'] = out.pop('evals_tables')
     out['extra']['behaviour_probes'] = out.pop('evals_probes')
     out['extra']['mode_' + case.get('mode', 'seeded')] = 1
-    out['probes'].pop('classes_in_lattice_max')
     out['log'] = observe.digest(logparts)
     out['sample'] = describe(case)
     return out
